@@ -15,17 +15,26 @@ def frontOp? (name : String) (ws : List String) : Option FrontOp :=
 
 def parseOp (ws : List String) : Option Op :=
   match ws with
+  | ["sel", k] => do pure (.sel (← k.toNat?))
   | ["open", n] => do pure (.openS (← n.toNat?))
   | ["recv", d] => do pure (.recv (← bytesOfHex d))
   | ["pass"] => some .pass
+  | ["teardown"] => some .teardown
   | ["opt", n] => do pure (.opt (← n.toNat?))
   | ["winsz", a, b] => do pure (.winsz (← a.toNat?) (← b.toNat?))
   | ["close"] => some .close
+  | ["xconn", k] => do pure (.xconn (← k.toNat?))
+  | ["xrecv", k, d] => do pure (.xrecv (← k.toNat?) (← bytesOfHex d))
+  | ["xdisc", k] => do pure (.xdisc (← k.toNat?))
+  | ["sstart"] => some .sstart
+  | ["srecv", d] => do pure (.srecv (← bytesOfHex d))
+  | ["sstop"] => some .sstop
   | ["mkdir"] => some .mkdir
   | ["mkfunc"] => some .mkfunc
   | ["mount", p, c, n] => do pure (.mount (← p.toNat?) (← c.toNat?) (← bytesOfHex n))
   | ["umount", p, n] => do pure (.umount (← p.toNat?) (← bytesOfHex n))
   | ["rmnode", i] => do pure (.rmnode (← i.toNat?))
+  | ["split", d] => do pure (.split (← bytesOfHex d))
   | op :: rest =>
     if op.startsWith "t" then (frontOp? (op.drop 1).toString rest).map (.front true)
     else if op.startsWith "r" then (frontOp? (op.drop 1).toString rest).map (.front false)
@@ -37,28 +46,65 @@ def badName : Bad → String
   | .negOverflow => "negation-overflow" | .index => "index-out-of-range" | .cursor => "cursor-out-of-range"
   | .recursion => "recursion" | .overread => "read-past-received" | .mapAt => "map-at-absent-key"
 
-/-- events → printed lines: adjacent sends are merged (as the recording connection does), ghost
-events are dropped, tags are collected into one `B` line -/
+/-- is `pat` a contiguous part of `s`? (outcome tags are read off the bytes sent) -/
+def hasSub (pat s : Str) : Bool :=
+  match s with
+  | [] => pat.isEmpty
+  | _ :: t => pat.isPrefixOf s || hasSub pat t
+
+def bytesOf (t : String) : Str := t.toUTF8.toList
+
+/-- outcome tags read off what was sent: which branches of the built-in commands were taken -/
+def outcomeTags (tx : Str) : List String :=
+  [("(R)\r\n", "tree-cycle"), ("(X)\r\n", "child-deleted"), ("' node has been deleted.", "node-deleted"),
+   (" node has been deleted.", "tree-node-deleted"), ("' not directory.", "cd-func"), (" is function.", "ls-func"),
+   (" is a function.", "tree-func"), ("Error: cannot access '", "no-access"), ("' not found.", "cmd-not-found"),
+   ("|   ", "tree-depth2"), ("/\r\n", "ls-dir-child")].filterMap fun (p : String × String) =>
+    if hasSub (bytesOf p.1) tx then some p.2 else none
+
+structure RAcc where
+  lines : Array (List String) := Array.replicate 9 []     -- per slot (8 = the op itself), reversed
+  pend : Array Str := Array.replicate 9 []
+  cur : Nat := 8
+  tags : List String := []
+  allTx : Str := []
+
+def RAcc.flush (a : RAcc) (k : Nat) : RAcc :=
+  let tx := a.pend.getD k []
+  if tx.isEmpty then a
+  else
+    let l := (if k = 8 then "P tx " else "P tx " ++ toString k ++ " ") ++ hexOfBytes tx
+    { a with lines := a.lines.setIfInBounds k (l :: a.lines.getD k []), pend := a.pend.setIfInBounds k [] }
+
+def RAcc.put (a : RAcc) (l : String) : RAcc :=
+  let a := a.flush a.cur
+  { a with lines := a.lines.setIfInBounds a.cur (l :: a.lines.getD a.cur []) }
+
+/-- events → printed lines, grouped by session slot (as the harness groups them); within a slot
+adjacent sends are merged, ghost events are dropped, tags are collected into one `B` line -/
 def render (evs : List Ev) : List String :=
-  let flush (tx : Str) (acc : List String) : List String :=
-    if tx.isEmpty then acc else ("P tx " ++ hexOfBytes tx) :: acc
-  let rec go (evs : List Ev) (tx : Str) (acc : List String) (tags : List String) : List String × List String :=
-    match evs with
-    | [] => ((flush tx acc).reverse, tags.reverse)
-    | .tx _ bs :: r => go r (tx ++ bs) acc tags
-    | .probe id args :: r =>
-      go r [] (("P probe " ++ toString id ++ " " ++ toString args.length ++
-        String.join (args.map fun a => " " ++ hexOfBytes a)) :: flush tx acc) tags
-    | .endSess :: r => go r [] ("P end" :: flush tx acc) tags
-    | .bad b :: r => go r [] (("P BAD " ++ badName b) :: flush tx acc) tags
-    | .tel (.str bs) :: r => go r [] (("P str " ++ hexOfBytes bs) :: flush tx acc) tags
-    | .tel (.setopt o) :: r => go r [] (("P setopt " ++ toString o) :: flush tx acc) tags
-    | .tel (.win a b) :: r => go r [] (("P win " ++ toString a ++ " " ++ toString b) :: flush tx acc) tags
-    | .line s :: r => go r [] (((if s.startsWith "rest=" then "M " else "P ") ++ s) :: flush tx acc) tags
-    | .tag t :: r => go r tx acc (t :: tags)
-    | _ :: r => go r tx acc tags
-  let (ls, tags) := go evs [] [] []
-  (if tags.isEmpty then [] else ["B " ++ " ".intercalate tags]) ++ ls
+  let a := evs.foldl (fun (a : RAcc) (e : Ev) =>
+    match e with
+    | .slot k => { a with cur := min k 8 }
+    | .tx _ bs => { a with pend := a.pend.setIfInBounds a.cur (a.pend.getD a.cur [] ++ bs), allTx := a.allTx ++ bs }
+    | .probe id args => a.put ("P probe " ++ toString id ++ " " ++ toString args.length ++
+        String.join (args.map fun x => " " ++ hexOfBytes x))
+    | .endSess => a.put ("P end " ++ toString a.cur)
+    | .closed => a.put ("P closed " ++ toString a.cur)
+    | .bad b => a.put ("P BAD " ++ badName b)
+    | .tel (.str bs) => a.put ("P str " ++ hexOfBytes bs)
+    | .tel (.setopt o) => a.put ("P setopt " ++ toString o)
+    | .tel (.win x y) => a.put ("P win " ++ toString x ++ " " ++ toString y)
+    | .tel (.reply _) => a
+    | .split none => a.put "P split fail"
+    | .split (some args) => a.put ("P split ok " ++ toString args.length ++ String.join (args.map fun x => " " ++ hexOfBytes x))
+    | .line s => a.put ((if s.startsWith "rest=" then "M " else "P ") ++ s)
+    | .tag t => { a with tags := t :: a.tags }
+    | _ => a) ({} : RAcc)
+  let a := (List.range 9).foldl (fun a k => a.flush k) a
+  let tags := a.tags.reverse ++ outcomeTags a.allTx
+  (if tags.isEmpty then [] else ["B " ++ " ".intercalate tags]) ++
+    ((List.range 9).map fun k => (a.lines.getD k []).reverse).flatten
 
 def stepLine (cfg : Cfg) (w : World) (line : String) : World × List String :=
   let ws := words line
